@@ -197,6 +197,7 @@ class Context:
         self.nonneg_known = set()
         self.n_decisions = 0
         self.unknown_branches = 0
+        self.generic_divisors = []
         self.notes = []
         self.expected_raise = None
         self.monitors = []
@@ -289,6 +290,10 @@ class Context:
 
     def eq(self, a, b):
         return self._rel(a, b, '==')
+
+    def eq_nf(self, a, b):
+        """Equality on normal forms only (no raw-term query even in raw mode)."""
+        return mkbool(eq_formula(a, b))
 
     def le(self, a, b):
         return self._rel(a, b, '<=')
@@ -560,6 +565,16 @@ class Context:
             if f in self.nonzero_known:
                 continue
             self.nonzero_known.add(f)
+            if self.opts.get('generic_divisors'):
+                # genericity: the finitely many quantities the run divides by
+                # are assumed non-zero (listed in the evidence)
+                g = Cmp.make(f, '!=')
+                v, _ = self.check(g)
+                if v == 'unsat':
+                    raise PathAbort('divisor identically zero on this path')
+                self._assert(g)
+                self.generic_divisors.append(repr(f)[:120])
+                continue
             self._obligation('div_by_zero', Cmp.make(f, '=='), repr(f)[:200])
 
     def zero_division(self, x):
@@ -815,9 +830,12 @@ class ConcreteContext:
         self.values = {k: Fraction(v) for k, v in values.items()}
         # absolute tolerance follows the magnitude of the inputs (tiny inputs
         # must not be hidden by a fixed absolute tolerance)
-        nz = [abs(float(v)) for v in self.values.values() if v != 0 and abs(v) > Fraction(1, 10 ** 300)]
-        lo = min(nz) if nz else 1.0
-        self.ATOL = 1e-9 * min(1.0, lo) ** 2 + 1e-300
+        # comparisons are relative; an absolute tolerance (scaled by the typical
+        # input magnitude) is used only when one side is exactly zero
+        nz = sorted(abs(float(v)) for v in self.values.values() if v != 0 and abs(v) > Fraction(1, 10 ** 300))
+        typ = nz[len(nz) // 2] if nz else 1.0
+        self.ATOL0 = 1e-9 * min(1.0, typ)
+        self.ATOL = 1e-300
         self.opts = opts or {}
         self.claims = []
         self.notes = []
@@ -863,6 +881,8 @@ class ConcreteContext:
 
     # tolerant comparisons
     def _tol(self, a, b):
+        if a == 0 or b == 0:
+            return self.ATOL0
         return self.ATOL + self.RTOL * max(abs(a), abs(b))
 
     def eq(self, a, b):
@@ -874,6 +894,9 @@ class ConcreteContext:
 
     def close(self, a, b, tol):
         return abs(float(a) - float(b)) <= max(tol, self._tol(float(a), float(b)))
+
+    def eq_nf(self, a, b):
+        return self.eq(a, b)
 
     def le(self, a, b):
         a = float(a)
@@ -899,8 +922,10 @@ class ConcreteContext:
             return False
         if not (np.all(np.isfinite(A)) and np.all(np.isfinite(B))):
             return False
-        scale = max(float(np.max(np.abs(A), initial=0)), float(np.max(np.abs(B), initial=0)))
-        return bool(np.all(np.abs(A - B) <= self.ATOL + self.RTOL * scale))
+        sa = float(np.max(np.abs(A), initial=0))
+        sb = float(np.max(np.abs(B), initial=0))
+        tol = self.ATOL0 if min(sa, sb) == 0 else self.ATOL + self.RTOL * max(sa, sb)
+        return bool(np.all(np.abs(A - B) <= tol))
 
     def all_(self, conds):
         return all(bool(c) for c in conds)
@@ -922,7 +947,10 @@ class ConcreteContext:
 
     def claim(self, name, cond, detail=None):
         ok = bool(cond)
-        self.claims.append({'name': name, 'kind': 'claim', 'ok': ok})
+        rec = {'name': name, 'kind': 'claim', 'ok': ok}
+        if detail and not ok:
+            rec['detail'] = detail
+        self.claims.append(rec)
         return ok
 
     def canary(self, name, cond):
